@@ -8,7 +8,11 @@ Re-read from the source on every run:
   * a census of the whole crate (src/**/*.rs without test modules): every `unsafe` token and every
     `*_unchecked` / `transmute` / raw-parts call must be one of the modelled sites or one of the three known
     non-text uses; a new one anywhere is a broken tie (the property would no longer be about all conversions);
-  * attribute::{INVISIBLE, SHORT_DATA, INVISIBLE_SHORT} (IcyDraw cell decoding) and HEX_TABLE (hex macros).
+  * attribute::{INVISIBLE, SHORT_DATA, INVISIBLE_SHORT} (IcyDraw cell decoding) and HEX_TABLE (hex macros);
+  * fonts.rs: MAX_GLYPHS and the PSF magic/mode/version constants, the loop of glyphs_from_u8_data around its
+    conversion (condition, slice, advance) and the statements of from_bytes / load_psf1 / load_psf2 /
+    load_plain_font / create_8 / from_basic and of the three `0..self.length` lookup loops that
+    Model/TextSites.v mirrors (token-level pins).
 -> coq/Gen/TextSitesGen.v"""
 import os, sys, glob
 sys.path.insert(0, os.path.join(os.path.dirname(__file__), '..'))
@@ -39,6 +43,39 @@ DANGEROUS = ['from_u32_unchecked', 'from_utf8_unchecked', 'from_utf16_unchecked'
 # the cell character fields of the IcyDraw decoders (both decoders read them the same way)
 ICY_SHORT = 'let ch = bytes [ o ] as u32 ;'
 ICY_LONG = 'let ch = u32 :: from_le_bytes ( bytes [ o .. ( o + 4 ) ] . try_into ( ) . unwrap ( ) ) ;'
+
+# fonts.rs: constants (name, type) and statements the hand-written loader models mirror (all must occur in the body)
+FONT_CONSTS = [('MAX_GLYPHS', 'usize'), ('PSF1_MAGIC', 'u16'), ('PSF1_MODE512', 'u8'), ('PSF2_MAGIC', 'u32'), ('PSF2_MAXVERSION', 'u32')]
+GLYPHS_PREFIX = ('let mut glyphs = HashMap :: new ( ) ; let mut ch = 0 ; '
+                 'while font_height > 0 && data . len ( ) >= font_height && ch < MAX_GLYPHS { '
+                 'let glyph = Glyph { data : data [ .. font_height ] . into ( ) , } ;')
+GLYPHS_SUFFIX = 'data = & data [ font_height .. ] ; ch += 1 ; } glyphs'
+def _u32(a, b, cast=''): return 'u32 :: from_le_bytes ( data [ %d .. %d ] . try_into ( ) . unwrap ( ) )%s ;' % (a, b, cast)
+FONT_PINS = {
+    'from_bytes': ['if data . len ( ) < 4 { return Err (',
+                   'let magic16 = u16 :: from_le_bytes ( data [ 0 .. 2 ] . try_into ( ) . unwrap ( ) ) ; '
+                   'if magic16 == BitFont :: PSF1_MAGIC { return Ok ( BitFont :: load_psf1 ( font_name , data ) ) ; }',
+                   'let magic32 = ' + _u32(0, 4) + ' if magic32 == BitFont :: PSF2_MAGIC { return BitFont :: load_psf2 ( font_name , data ) ; } '
+                   'BitFont :: load_plain_font ( font_name , data )'],
+    'load_psf1': ['let mode = data [ 2 ] ; let charsize = data [ 3 ] ; '
+                  'let length = if mode & BitFont :: PSF1_MODE512 == BitFont :: PSF1_MODE512 { 512 } else { 256 } ;',
+                  ', length , ', 'glyphs : glyphs_from_u8_data ( charsize as usize , & data [ 4 .. ] ) ,'],
+    'load_plain_font': ['if data . len ( ) % 256 != 0 { return Err (', 'let char_height = data . len ( ) / 256 ;',
+                        'length : 256 ,', 'glyphs : glyphs_from_u8_data ( char_height , data ) ,'],
+    'load_psf2': ['if data . len ( ) < 32 { return Err (',
+                  'let version = ' + _u32(4, 8) + ' if version > BitFont :: PSF2_MAXVERSION { return Err (',
+                  'let headersize = ' + _u32(8, 12, ' as usize'),
+                  'let length = ' + _u32(16, 20, ' as usize') + ' let charsize = ' + _u32(20, 24, ' as usize') +
+                  ' let expected = length . checked_mul ( charsize ) . and_then ( | size | size . checked_add ( headersize ) ) ; '
+                  'if expected != Some ( data . len ( ) ) || length > MAX_GLYPHS { return Err (',
+                  'let height = ' + _u32(24, 28, ' as usize'),
+                  'length : length as i32 ,', 'glyphs : glyphs_from_u8_data ( height , & data [ headersize .. ] ) ,'],
+    'create_8': ['length : 256 ,', 'glyphs : glyphs_from_u8_data ( height as usize , data ) ,'],
+    'from_basic': ['length : 256 ,', 'glyphs : glyphs_from_u8_data ( height as usize , data ) ,'],
+    'calculate_checksum': ['for ch in 0 .. self . length {'],
+    'convert_to_u8_data': ['for ch in 0 .. self . length {'],
+    'to_psf2_bytes': ['for i in 0 .. self . length {'],
+}
 
 def find_calls(body, path):
     """indices i where body[i:] starts with the path tokens followed by `(`; returns list of (i, arg_tokens)"""
@@ -75,6 +112,22 @@ def generate(repo):
     hx = val[0][1][2:-1]
     if '\\' in hx: raise TranslateError('HEX_TABLE: escapes not supported')
     lines.append('Definition HEX_TABLE : list N := [%s].' % '; '.join(str(ord(c)) for c in hx))
+    # ---- fonts.rs: constants, the glyph loop, the loaders
+    fo = S('src/fonts.rs')
+    for name, want_ty in FONT_CONSTS:
+        ty, val = fo.find_const(name)
+        if norm_text(ty) != want_ty or len(val) != 1 or val[0][0] != 'num':
+            raise TranslateError('fonts.rs: %s is no longer a %s literal' % (name, want_ty))
+        lines.append('Definition %s : N := %d.' % (name, parse_num(val[0])))
+    bt = norm_text(fo.find_fn('glyphs_from_u8_data')[1])
+    if not (bt.startswith(GLYPHS_PREFIX) and bt.endswith(GLYPHS_SUFFIX)):
+        raise TranslateError('fonts.rs: the loop of glyphs_from_u8_data is no longer the modelled one '
+                             '(condition / glyph slice / advance): %s' % bt)
+    for fn, pins in FONT_PINS.items():
+        bt = norm_text(fo.find_fn(fn)[1])
+        for pin in pins:
+            if pin not in bt:
+                raise TranslateError('fonts.rs: fn %s no longer contains the modelled statement `%s`' % (fn, pin))
     lines.append('')
     # ---- char conversion sites
     unchecked_in = {}          # file -> number of unchecked sites (each carries one `unsafe` block)
